@@ -82,6 +82,23 @@ class ProbeFuture(Future):
         Future._invoke_callbacks(self)
 
 
+class StubbornFuture(ProbeFuture):
+    """Refuses the first `refusals` cancel() calls (like work that is momentarily
+    uncancellable), then behaves normally."""
+
+    def __init__(self, mc, label, refusals=1):
+        ProbeFuture.__init__(self, mc, label)
+        self.refusals = refusals
+
+    def cancel(self):
+        if self.refusals > 0 and not self.done():
+            self.refusals -= 1
+            self.cancel_calls += 1
+            self.mc.emit("probe.cancel", f=self.label, ret=False, was="REFUSING")
+            return False
+        return ProbeFuture.cancel(self)
+
+
 class Item(object):
     __slots__ = ("idx", "fn", "args", "kwargs", "future", "state")
 
